@@ -2,6 +2,7 @@
 import random
 from vlib.driver import Plan, H
 from vlib.catalog import *
+from props import strprops
 
 USE = "use crate::support::de::*;\n    use crate::support::ser::*;\n    use serde::{Deserialize, Serialize};"
 
@@ -124,9 +125,15 @@ def generate(tier, seed):
     src.append(OTHER)
     for hn, what in [("c10_other_struct", "struct inner type P{x,y} (serde derive)"), ("c10_generic", "generic Wrapper<T> at i32: name and round trip"), ("c10_option_tuple", "Option<i16> and (u8,u8) inner types")]:
         plan.add(H(hn, "main", {"case": what}))
+    src.append(strprops.gen_c10(plan, tier, rng))
     plan.source = "\n".join(src)
     plan.bounds = {"numeric": "all inputs and bounds; idempotent symbolic sanitizer san(x)=bits|K", "events": "recording Serializer; round trip through the C04 stub Deserializer with the event the inner value serializes as"}
     plan.assumptions = ["'byte-identical to the inner encoding in JSON and MessagePack' follows from those formats' documented handling of newtype structs (serialize_newtype_struct(_, v) = v.serialize(self)); the real encoders/decoders (float printing, escaping) are trusted",
                         "RON's textual form and name-checking are not executed; the struct name handed to the (de)serializer is checked to be the declared type name",
                         "non-NaN float bounds"]
+    if "-Z" not in plan.kani_flags:
+        plan.kani_flags = plan.kani_flags + ["-Z", "stubbing"]
+    plan.pre_steps = plan.pre_steps + [strprops.model_validation_step]
+    plan.assumptions = plan.assumptions + strprops.ASSUMPTIONS
+    plan.bounds["strings"] = "skeleton inputs: concrete whitespace/underscore/non-ASCII characters + <= 3 symbolic printable-ASCII fillers, one harness per (declaration, skeleton); unwind 12-14"
     return plan
